@@ -150,6 +150,11 @@ func (t *ServerTransport) handleDataRequest(w http.ResponseWriter, r *http.Reque
 		return
 	}
 
+	if t.maxHTTPBufferSize > 0 {
+		// Bodies without a declared length (chunked) are limited as well.
+		r.Body = http.MaxBytesReader(w, r.Body, t.maxHTTPBufferSize)
+	}
+
 	var (
 		packets []*parser.Packet
 		jsonp   = r.URL.Query().Get("j")
